@@ -63,6 +63,36 @@ def analyse(F, s, classes):
             ts.methods[fn.label] = (fn, r)
         except symex.Unsupported as e:
             ts.errors.append("%s: %s" % (fn.label, e))
+    # buffer invariant first: `buffer.len()` is the period (the buffer is created with that length and never reassigned), so the
+    # two spellings are unified before cursors and counters are classified
+    if len(ts.len_fields) >= 1 and ts.buffers:
+        pp_ = ("pre", "self." + list(ts.len_fields)[0])
+        bufs_ = {("pre", "self." + b) for b in ts.buffers}
+        memo_ = {}
+
+        def lenfix(x):
+            if not isinstance(x, tuple) or not x:
+                return x
+            if x in memo_:
+                return memo_[x]
+            if x[0] == "len" and len(x) == 2:
+                a = x[1]
+                while isinstance(a, tuple) and a and a[0] in ("store", "fill"):
+                    a = a[1]
+                if a in bufs_:
+                    memo_[x] = pp_
+                    return pp_
+            y = tuple(lenfix(z) for z in x)
+            memo_[x] = y
+            return y
+        for lab, (fn, r) in ts.methods.items():
+            r["ret"] = lenfix(r["ret"])
+            for k in list(r["heap"]):
+                r["heap"][k] = lenfix(r["heap"][k])
+            for site in r["exec"].sites:
+                site["facts"] = {lenfix(a): v for a, v in site["facts"].items()}
+                if site["what"] == "diverge-edge":
+                    site["operands"] = {"cond": lenfix(site["operands"]["cond"])}
     # index functions: result is 0 or an enumeration index over one of the struct's buffers
     for lab, (fn, r) in ts.methods.items():
         ret = r["ret"]
